@@ -4,7 +4,6 @@ CONSTANTS
   Steps <- StepsStd
   GridOnly = TRUE
   Dump = TRUE
-  Cap = 300
 INVARIANT RefSound
 INVARIANT BodySound
 INVARIANT ImplFollowsRef
